@@ -1052,6 +1052,12 @@ class C20(Check):
                     f"theorem see_swaplist) is not the mailbox sequence (See.seq, theorem spec_is_swaplist): {f[1]}")
         if sq == "ok":
             feats.add("sequences-agree")
+        th = sp.pop("@thm", None)
+        if corr is None and th not in (None, "ok"):
+            corr = (f"model-internal: the statement of theorem see_swaplist evaluates to false for the capture {th} "
+                    f"(a hypothesis of the theorem does not hold there): {f[1]}")
+        if th == "ok":
+            feats.add("see_swaplist-instance")
         for mv, v in items.items():
             a, b = v.split("/")
             self.distinct.add((f[1], mv)) if False else None
